@@ -10,10 +10,10 @@ from verif import (Infra, Verdict, Work, build_driver, load_known, log, match_kn
 
 PROFILES = {
     # property: (driver profile, histories quick, histories thorough)
-    "C02": ("c02", 350, 6000),
-    "C03": ("c03", 700, 10000),
-    "C06": ("c06", 220, 4000),
-    "C08": ("c08", 600, 12000),
+    "C02": ("c02", 350, 25000),
+    "C03": ("c03", 700, 40000),
+    "C06": ("c06", 220, 15000),
+    "C08": ("c08", 600, 40000),
 }
 
 TRACE_MODULE = {"C08": "EncodingTrace"}
@@ -174,7 +174,7 @@ def _run_prop(prop, tier, seed, replay, verdict, work, judge, design_run):
         # TLC judges in chunks of whole traces (bounded memory, parallel)
         chunks = split_chunks(lines, 60000)
         verdicts = []
-        with ThreadPoolExecutor(max_workers=4) as ex:
+        with ThreadPoolExecutor(max_workers=8) as ex:
             futs = []
             for i, ch in enumerate(chunks):
                 path = work.path("chunk%d.ndjson" % i)
